@@ -1000,8 +1000,51 @@ int EGLPNUM_TYPENAME_ILLlib_addrows (
 	EGLPNUM_TYPE *bval = 0;
 	EGLPNUM_TYPE rng;
 	int badfactor = 0;
+	int sind;
 
 	EGLPNUM_TYPENAME_EGlpNumInitVar (rng);
+
+	/* validate the whole request first: the indices are used below before
+	 * ILLlib_addrow sees them, and a bad row in the middle of the list must not
+	 * leave the earlier ones added */
+	for (i = 0; lp && i < num; i++)
+	{
+		if (sense[i] != 'L' && sense[i] != 'G' && sense[i] != 'E' && sense[i] != 'R')
+		{
+			QSlog("EGLPNUM_TYPENAME_ILLlib_addrows called with illegal sense: %c", sense[i]);
+			rval = 1;
+			ILL_CLEANUP;
+		}
+		for (j = 0; j < rmatcnt[i]; j++)
+		{
+			if (rmatind[rmatbeg[i] + j] < 0 || rmatind[rmatbeg[i] + j] >= lp->O->nstruct)
+			{
+				QSlog("EGLPNUM_TYPENAME_ILLlib_addrows called with bad column index: %d",
+										rmatind[rmatbeg[i] + j]);
+				rval = 1;
+				ILL_CLEANUP;
+			}
+		}
+		if (names && names[i])
+		{
+			if (lp->O->rowtab.tablesize > 0 &&
+					!ILLsymboltab_lookup (&lp->O->rowtab, names[i], &sind))
+			{
+				QSlog("EGLPNUM_TYPENAME_ILLlib_addrows: row name %s already in use", names[i]);
+				rval = 1;
+				ILL_CLEANUP;
+			}
+			for (j = 0; j < i; j++)
+			{
+				if (names[j] && !strcmp (names[i], names[j]))
+				{
+					QSlog("EGLPNUM_TYPENAME_ILLlib_addrows: row name %s given twice", names[i]);
+					rval = 1;
+					ILL_CLEANUP;
+				}
+			}
+		}
+	}
 
 	if (B == 0 || B->rownorms == 0)
 	{
@@ -2167,7 +2210,42 @@ int EGLPNUM_TYPENAME_ILLlib_addcols (
 	int factorok)
 {
 	int rval = 0;
-	int i;
+	int i, j, sind;
+
+	/* validate the whole request first, so that a bad column in the middle of
+	 * the list does not leave the earlier ones added */
+	for (i = 0; lp && i < num; i++)
+	{
+		for (j = 0; j < cmatcnt[i]; j++)
+		{
+			if (cmatind[cmatbeg[i] + j] < 0 || cmatind[cmatbeg[i] + j] >= lp->O->nrows)
+			{
+				QSlog("EGLPNUM_TYPENAME_ILLlib_addcols called with bad row index: %d",
+										cmatind[cmatbeg[i] + j]);
+				rval = 1;
+				ILL_CLEANUP;
+			}
+		}
+		if (names && names[i])
+		{
+			if (lp->O->coltab.tablesize > 0 &&
+					!ILLsymboltab_lookup (&lp->O->coltab, names[i], &sind))
+			{
+				QSlog("EGLPNUM_TYPENAME_ILLlib_addcols: column name %s already in use", names[i]);
+				rval = 1;
+				ILL_CLEANUP;
+			}
+			for (j = 0; j < i; j++)
+			{
+				if (names[j] && !strcmp (names[i], names[j]))
+				{
+					QSlog("EGLPNUM_TYPENAME_ILLlib_addcols: column name %s given twice", names[i]);
+					rval = 1;
+					ILL_CLEANUP;
+				}
+			}
+		}
+	}
 
 	for (i = 0; i < num; i++)
 	{
@@ -2206,7 +2284,7 @@ int EGLPNUM_TYPENAME_ILLlib_addcol (
 	int rval = 0;
 	EGLPNUM_TYPENAME_ILLlpdata *qslp;
 	EGLPNUM_TYPENAME_ILLmatrix *A;
-	int ncols;
+	int i, ncols;
 	char buf[ILL_namebufsize];
 	int pind, hit;
 	EGLPNUM_TYPE l, u;
@@ -2224,6 +2302,18 @@ int EGLPNUM_TYPENAME_ILLlib_addcol (
 	qslp = lp->O;
 	A = &qslp->A;
 	ncols = qslp->ncols;
+
+	/* reject bad row indices before anything (the column name in particular)
+	 * has been registered */
+	for (i = 0; i < cnt; i++)
+	{
+		if (ind[i] < 0 || ind[i] >= qslp->nrows)
+		{
+			QSlog("EGLPNUM_TYPENAME_ILLlib_addcol called with bad row index: %d", ind[i]);
+			rval = 1;
+			ILL_CLEANUP;
+		}
+	}
 
 	if (qslp->rA)
 	{															/* After an addcol call, needs to be updated */
